@@ -5,11 +5,15 @@
 (*   strictly increasing; none before DTSTART; none after UNTIL; never     *)
 (*   more than COUNT; and the stream was obtained without crash or         *)
 (*   time-out (those records have no acceptable form).                     *)
-(* For TZID events DTSTART/UNTIL are wall-clock values; the UTC            *)
-(* occurrences are compared with a one-day allowance.                      *)
+(* For TZID events DTSTART is a wall-clock value; the UTC occurrences are   *)
+(* compared with it with a one-day allowance.  A date-time UNTIL is a UTC   *)
+(* value whatever the zone of DTSTART (RFC 5545 3.3.10) and the occurrences *)
+(* are UTC values: that bound is exact; a date-valued UNTIL of a zoned      *)
+(* event keeps the one-day allowance.                                       *)
 EXTENDS RRule, TLC, Json, IOUtils
 Tr == ndJsonDeserialize(IOEnv.TRACE)
 Slack(r) == IF r.tz THEN 1 ELSE 0
+USlack(r) == IF r.tz /\ r.until[4] = 255 THEN 1 ELSE 0
 (* PROP=C09 judges only the liveness/safety half: the stream was obtained, whatever is in it *)
 Prop == IF "PROP" \in DOMAIN IOEnv THEN IOEnv.PROP ELSE "C16"
 Verdict(r) ==
@@ -21,7 +25,7 @@ Verdict(r) ==
     IF /\ \A i \in 1..(Len(occ) - 1) : PLt(occ[i], occ[i + 1])
        /\ \A i \in 1..Len(occ) : WF(I(r.occ[i]))
        /\ \A i \in 1..Len(occ) : ~PLt(occ[i], <<ds[1] - Slack(r), ds[2]>>)
-       /\ (r.until # <<>> => LET u == Pair(I(r.until)) IN \A i \in 1..Len(occ) : ~PLt(<<u[1] + Slack(r), u[2]>>, occ[i]))
+       /\ (r.until # <<>> => LET u == Pair(I(r.until)) IN \A i \in 1..Len(occ) : ~PLt(<<u[1] + USlack(r), u[2]>>, occ[i]))
        /\ (r.count > 0 => Len(occ) <= r.count)
        /\ r.peekmism = 0
     THEN "ok" ELSE "bad"
